@@ -120,7 +120,7 @@ def name_str(b, n):
 
 
 MISMATCH_DETAILS = {"m0": [], "m1": ["diff"], "m2": ["traceback", "Failed expectation"]}
-FIXTURE_DETAILS = {"f_ok": ["fxd"], "f_tb": ["traceback"], "f_two": ["traceback", "traceback-1"], "f_bad": ["fxd"], "f_cr": ["fxd"], "f_gr": ["fxd"]}
+FIXTURE_DETAILS = {"f_ok": ["fxd"], "f_tb": ["traceback"], "f_two": ["traceback", "traceback-1"], "f_bad": ["fxd"], "f_cr": ["fxd"], "f_gr": ["fxd"], "f_nest": ["fxd"], "f_nestbad": ["fxd"], "f_nestcr": ["fxd"]}
 
 
 class SynthMismatch(Mismatch):
@@ -143,6 +143,36 @@ class SynthMatcher:
 
     def match(self, other):
         return SynthMismatch(self.m)
+
+
+class ChildFixture(fixtures.Fixture):
+    """Fixture used from inside SynthFixture f_nest*: may fail in setUp (f_nestbad) or in cleanUp (f_nestcr)."""
+
+    def __init__(self, parent):
+        super().__init__()
+        self.parent = parent
+
+    def _setUp(self):
+        p = self.parent
+        env = p.env
+        cid = "fx:%s:fxd-1" % p.f
+        p.source[cid] = [cid.encode("utf8")]
+        self.addDetail("fxd", p._sourced(cid))
+        if p.f == "f_nestbad":
+            env.nraised += 1
+            i = env.nraised
+            env.nraised += 1  # SetupError of the child
+            env.note_framework("SetupError", env.current_unit, env.nraised)
+            env.nraised += 1  # SetupError of the parent
+            env.note_framework("SetupError", env.current_unit, env.nraised)
+            raise RuntimeError("MARK-%s-%d" % (env.current_unit, i))
+        if p.f == "f_nestcr":
+            self.addCleanup(self._clean_raises)
+
+    def _clean_raises(self):
+        env = self.parent.env
+        env.nraised += 1
+        raise RuntimeError("MARK-fxclean:%s-%d" % (self.parent.f, env.nraised))
 
 
 class SynthFixture(fixtures.Fixture):
@@ -172,6 +202,9 @@ class SynthFixture(fixtures.Fixture):
             cid = "fx:%s:%s" % (self.f, b)
             self.source[cid] = [cid.encode("utf8")]
             self.addDetail(b, self._sourced(cid))
+        if self.f in ("f_nest", "f_nestbad", "f_nestcr"):
+            # a child fixture used by this one (its details are merged into ours as fxd-1)
+            self.useFixture(ChildFixture(self))
         if self.f == "f_bad":
             self.env.nraised += 1
             i = self.env.nraised
